@@ -2346,8 +2346,21 @@ pub enum UnpackError {
     Misuse,
 }
 
+// reads the `intlen`-byte big-endian integer that follows a type byte; the
+// packed format is the minimal-width *unsigned* image of the value's bits
+// (see `num_bytes_needed_*`), so it must not be sign-extended
+fn unpack_uint(buf: &mut &[u8], intlen: usize) -> Result<u64, UnpackError> {
+    if intlen > 8 || buf.remaining() < intlen {
+        return Err(UnpackError::Abort);
+    }
+    Ok(buf.get_uint(intlen))
+}
+
 pub fn unpack_columns(mut buf: &[u8]) -> Result<Vec<SqliteValueRef<'_>>, UnpackError> {
     let mut ret = vec![];
+    if !buf.has_remaining() {
+        return Err(UnpackError::Abort);
+    }
     let num_columns = buf.get_u8();
 
     for _i in 0..num_columns {
@@ -2360,10 +2373,7 @@ pub fn unpack_columns(mut buf: &[u8]) -> Result<Vec<SqliteValueRef<'_>>, UnpackE
 
         match column_type {
             Some(ColumnType::Blob) => {
-                if buf.remaining() < intlen {
-                    return Err(UnpackError::Abort);
-                }
-                let len = buf.get_int(intlen) as usize;
+                let len = unpack_uint(&mut buf, intlen)? as usize;
                 if buf.remaining() < len {
                     return Err(UnpackError::Abort);
                 }
@@ -2377,19 +2387,15 @@ pub fn unpack_columns(mut buf: &[u8]) -> Result<Vec<SqliteValueRef<'_>>, UnpackE
                 ret.push(SqliteValueRef(ValueRef::Real(buf.get_f64())));
             }
             Some(ColumnType::Integer) => {
-                if buf.remaining() < intlen {
-                    return Err(UnpackError::Abort);
-                }
-                ret.push(SqliteValueRef(ValueRef::Integer(buf.get_int(intlen))));
+                ret.push(SqliteValueRef(ValueRef::Integer(
+                    unpack_uint(&mut buf, intlen)? as i64,
+                )));
             }
             Some(ColumnType::Null) => {
                 ret.push(SqliteValueRef(ValueRef::Null));
             }
             Some(ColumnType::Text) => {
-                if buf.remaining() < intlen {
-                    return Err(UnpackError::Abort);
-                }
-                let len = buf.get_int(intlen) as usize;
+                let len = unpack_uint(&mut buf, intlen)? as usize;
                 if buf.remaining() < len {
                     return Err(UnpackError::Abort);
                 }
